@@ -136,9 +136,10 @@ def gen(t):
     for h in HELPERS.get(t, []):
         w('//@fn %s %s in "impl %s" impl=%s sigrep="crate::errors::ParseError=>ParseError" props=C01,C07' % (f, h, T, T))
         w('requires')
-        w('  old(parser).wf()')
+        w('  old(parser).wf(), !old(parser).failed@')
         w('ensures')
         w('  [C01 mt%s.%s.frame] final(parser).wf() && final(parser).same(old(parser)) && final(parser).position >= old(parser).position && (final(parser).position == old(parser).position ==> complete(final(parser)) == complete(old(parser)))' % (t, h))
+        w('  [C09 mt%s.%s.errors_propagated] final(parser).failed@ == r.is_err()' % (t, h))
         if t not in NO_LINEAR and h in HELPER_COUNT.get(t, {}):
             w('  [C01 mt%s.%s.linear] (match r { Ok(v) => final(parser).consumed@ == old(parser).consumed@ + %s, Err(_) => true })' % (t, h, HELPER_COUNT[t][h]))
         w('body replace "crate::parser::MessageParser" => "MessageParser"')
@@ -221,7 +222,7 @@ def gen(t):
         live = [n for (n, lp, le, dd) in plocals if lp < kwpos < le and kwpos < dd]
         lin = ', parser.consumed@ == ' + (' + '.join('%s.nf()' % n for n in live) if live else '0') if t not in NO_LINEAR else ''
         lin += ''.join(', %s == %s.nf()' % (g, n) for g, n in shadow_before.get(k, []))
-        w('  invariant parser.wf(), parser.input == block4, parser.message_type@ == "%s"@' % t + lin + (', parser.position >= p_before_%d' % k if parents else '') + ''.join(', ' + x for x in INVARIANTS.get(t, {}).get(k, [])))
+        w('  invariant parser.wf(), !parser.failed@, parser.input == block4, parser.message_type@ == "%s"@' % t + lin + (', parser.position >= p_before_%d' % k if parents else '') + ''.join(', ' + x for x in INVARIANTS.get(t, {}).get(k, [])))
         w('  decreases block4.spec_bytes().len() - parser.position')
         if t not in NO_LINEAR:
             w('  bodystart broadcast use {b_seq_nf_push, b_seq_nf_empty};')
@@ -240,6 +241,7 @@ def gen(t):
     w('  broadcast use {b_seq_nf_push, b_seq_nf_empty};')
     w('okassert')
     w('  assert(complete(&parser));   // C01: nothing after the last field of the type is left unparsed')
+    w('  assert(!parser.failed@);   // C09: no error of a fetch was swallowed on the way')
     if t not in NO_LINEAR:
         w('  assert(parser.consumed@ == $OK.nf());   // C01: every field occurrence taken from the text is stored in the result')
     w('//@end')
